@@ -8,8 +8,10 @@ lean/OFCore/OFCore/Drv/PView.lean for the full grammar):
     ra:<s>:<form>:<d>:<path>      view & parameter object & formula & traced formula  -> v&t&f&g^log
     rv / rt / rf                  one route only
     nr:<b>:<k>                    a Reform of system b whose apply() runs the next k operations
-    md:<s>:<edits>                reform.modify_parameters (u,<path>,<a>,<b|->,<v> updates, r,<k>, x)
-    ld:<s>:<k>                    system.load_parameters(<directory holding tree k>)
+    md:<s>:<items>                reform.modify_parameters (u,<path>,<a>,<b|->,<v> updates, r,<k>, x; and reads the
+                                  modifier makes while it runs: v,<sys>,<form>,<d>,<path> / a,… = all routes) -> ok~<nested>…
+    ld:<s>:<k>[:<reads>]          system.load_parameters(<directory holding tree k>); the reads are made by the
+                                  system's preprocess_parameters hook
     fx:<s>:<route>:<form>:<d>:<path>:<kind>:<keys>:<steps>      node[key vector]<steps>
     ao:<s>:<route>:<form>:<d>:<path>:<dates>:<steps>            node[datetime64 vector]<steps>
 
@@ -72,6 +74,8 @@ def parse_edit(s: str):
         return ("r", _nat(f[1]))
     if f == ["x"]:
         return ("x",)
+    if f[0] in ("v", "a") and len(f) == 5:          # a read made while the modification is under way
+        return (f[0], _nat(f[1]), _nat(f[2]), _int(f[3]), p_path(f[4]))
     raise Malformed(s)
 
 
@@ -124,7 +128,12 @@ def parse_op(s: str):
     if k == "md" and len(f) == 3:
         return ("md", _nat(f[1]), [parse_edit(e) for e in f[2].split("+")])
     if k == "ld" and len(f) == 3:
-        return ("ld", _nat(f[1]), _nat(f[2]))
+        return ("ld", _nat(f[1]), _nat(f[2]), [])
+    if k == "ld" and len(f) == 4:
+        items = [parse_edit(e) for e in f[3].split("+")]
+        if any(it[0] not in ("v", "a") for it in items):
+            raise Malformed(s)
+        return ("ld", _nat(f[1]), _nat(f[2]), items)
     if k == "fx" and len(f) == 9:
         if f[2] not in ROUTES:
             raise Malformed(s)
@@ -164,6 +173,8 @@ def parse_line(line: str):
             raise Malformed("system")
         if o[0] == "ld" and o[2] >= n:
             raise Malformed("tree")
+        if o[0] in ("md", "ld") and any(it[0] in ("v", "a") and it[1] >= nsys for it in o[-1]):
+            raise Malformed("system")
     return init, ops, trees
 
 
@@ -349,6 +360,8 @@ class Ref:
             if t is None:
                 return False
             for e in op[2]:
+                if e[0] in ("v", "a"):
+                    continue
                 if e[0] == "u":
                     t = ref_update(t, e[1], (e[2], e[3], e[4]))
                     if t is None:
@@ -615,13 +628,29 @@ class World:
 
     # ---- modifications
 
-    def modifier(self, edits):
+    def nested_read(self, it) -> str:
+        """a read made by user code in the middle of a modification"""
+        kind, sy, form, d, path = it
+        if kind == "v":
+            return self.read_view(sy, form, d, path)
+        v = self.read_view(sy, form, d, path)
+        t = self.read_tree(sy, d, path)
+        f = self.read_formula(sy, False, 2, d, path).split("^")[0]
+        g = self.read_formula(sy, True, 2, d, path)
+        return f"{v}&{t}&{f}&{g}"
+
+    def modifier(self, items, nested: list):
         from openfisca_core import periods
         world = self
 
         def modifier(parameters):
-            for e in edits:
-                if e[0] == "u":
+            not_a_node = False
+            for e in items:
+                if e[0] in ("v", "a"):
+                    nested.append(world.nested_read(e))
+                elif not_a_node:
+                    continue
+                elif e[0] == "u":
                     p = world.walk(parameters, e[1])
                     v = c06.val_of(e[4], world.rs)
                     start = world.rs.choice([periods.instant(iso(e[2])), iso(e[2])])
@@ -634,8 +663,8 @@ class World:
                 elif e[0] == "r":
                     parameters = world.node(e[1])
                 else:
-                    return None
-            return parameters
+                    not_a_node = True
+            return None if not_a_node else parameters
         return modifier
 
     def run(self, ops, lo, hi, outs):
@@ -671,14 +700,27 @@ class World:
                 key = np.array([iso(x) for x in dates], dtype="datetime64[D]")
                 outs.append(self.vec_read(s, route, form, d, path, key, steps, attr_only=True))
             elif k == "ld":
-                _, s, tk = op
-                self.systems[s].load_parameters(self.directory(tk))
-                outs.append("ok")
-            elif k == "md":
-                _, s, edits = op
+                _, s, tk, items = op
+                nested: list = []
+                if items:
+                    # the only user code that runs inside load_parameters: the preprocess_parameters hook
+                    def hook(parameters, items=items, nested=nested):
+                        for it in items:
+                            nested.append(self.nested_read(it))
+                        return parameters
+                    self.systems[s].preprocess_parameters = hook
                 try:
-                    self.systems[s].modify_parameters(self.modifier(edits))
-                    outs.append("ok")
+                    self.systems[s].load_parameters(self.directory(tk))
+                finally:
+                    if items:
+                        del self.systems[s].preprocess_parameters
+                outs.append("~".join(["ok"] + nested))
+            elif k == "md":
+                _, s, items = op
+                nested = []
+                try:
+                    self.systems[s].modify_parameters(self.modifier(items, nested))
+                    outs.append("~".join(["ok"] + nested))
                 except Exception:
                     outs.append("ERR")
             elif k == "nr":
@@ -736,6 +778,42 @@ def _same(got: str, want) -> bool:
     return _undef(got) if want is None else got == show_val(want)
 
 
+def check_read(k, where, s, d, path, ans, want, vague, last_change):
+    """one read answer (`ra`: the four routes; `rv`/`rt`/`rf`: one route) against the value `want` the tree in
+    place defines (None = undefined there)"""
+    body, _, log = ans.partition("^")
+    parts = body.split("&") if k == "ra" else None
+    if k == "ra":
+        if len(parts) != 4:
+            return ("shape", f"{where}: {ans}")
+        v, t, f, g = parts
+        # all access paths agree with parameters.<path>(date) on the current tree object
+        for nm, x in (("view", v), ("formula", f), ("traced formula", g)):
+            if not (x == t or (_undef(x) and _undef(t))):
+                return ("view-stale" if (vague or _same(t, want)) else "routes-disagree",
+                        f"{where}: system {s} at {iso(d)} path {'.'.join(path) or '<root>'}: the {nm} route gives {x}, "
+                        f"parameters.<path>(date) on the current tree gives {t} (last change: {last_change})")
+        if vague:
+            return None
+        if not _same(t, want):
+            return ("tree-value", f"{where}: parameters.<path>({iso(d)}) of system {s} is {t}; the tree built by the "
+                                  f"history defines {show_val(want)} (last change: {last_change})")
+        if g != f:
+            return ("traced-differs", f"{where}: traced {g} vs untraced {f}")
+        if want is not None and not isinstance(want, (dict, tuple)):
+            wlog = f"{'.'.join(path[:-1])}.{path[-1]}@{d}={want}"
+            if log != wlog:
+                return ("trace-log", f"{where}: the tracer recorded [{log}], the read was {wlog}")
+        elif log != "" and isinstance(want, (dict, tuple)):
+            return ("trace-log", f"{where}: the tracer recorded [{log}] for a read that returned no plain value")
+    elif not vague:
+        if not _same(body, want):
+            sig = "tree-value" if k == "rt" else "view-stale"
+            return (sig, f"{where}: system {s} at {iso(d)} path {'.'.join(path) or '<root>'} reads {body}; "
+                         f"the current tree defines {show_val(want)} (last change: {last_change})")
+    return None
+
+
 def oracle(case: Case, out: str):
     if not case.claimed:
         return None
@@ -762,8 +840,20 @@ def oracle(case: Case, out: str):
             vague_sys.add(op[1])
         vague = op[1] in vague_sys
         if k in ("nr", "ld", "md"):
+            parts = ans.split("~")
+            items = [it for it in op[-1] if it[0] in ("v", "a")] if k in ("ld", "md") else []
+            if parts[0] == "ok" and items:
+                # reads made while the modification was under way: every system still has its former tree
+                if len(parts) != 1 + len(items):
+                    return ("shape", f"{where}: {ans}")
+                for it, na in zip(items, parts[1:]):
+                    kind, sy, _form, d, path = it
+                    r = check_read("ra" if kind == "a" else "rv", where + f" (nested read of system {sy})", sy, d, path, na,
+                                   ref.value(sy, path, d), sy in vague_sys, last_change)
+                    if r:
+                        return r
             ok = ref.apply(op)
-            if k == "md" and ok and ans != "ok" and not vague:
+            if k == "md" and ok and parts[0] != "ok" and not vague:
                 return ("modify-raised", f"{where}: modify_parameters raised")
             if k == "ld":
                 vague_sys.discard(op[1])
@@ -782,37 +872,9 @@ def oracle(case: Case, out: str):
                 _, s, d, path = op
             else:
                 _, s, _tr, _form, d, path = op
-            want = ref.value(s, path, d)
-            body, _, log = ans.partition("^")
-            parts = body.split("&") if k == "ra" else None
-            if k == "ra":
-                if len(parts) != 4:
-                    return ("shape", f"{where}: {ans}")
-                v, t, f, g = parts
-                # all access paths agree with parameters.<path>(date) on the current tree object
-                for nm, x in (("view", v), ("formula", f), ("traced formula", g)):
-                    if not (x == t or (_undef(x) and _undef(t))):
-                        return ("view-stale" if (vague or _same(t, want)) else "routes-disagree",
-                                f"{where}: system {s} at {iso(d)} path {'.'.join(path) or '<root>'}: the {nm} route gives {x}, "
-                                f"parameters.<path>(date) on the current tree gives {t} (last change: {last_change})")
-                if vague:
-                    continue
-                if not _same(t, want):
-                    return ("tree-value", f"{where}: parameters.<path>({iso(d)}) of system {s} is {t}; the tree built by the "
-                                          f"history defines {show_val(want)} (last change: {last_change})")
-                if g != f:
-                    return ("traced-differs", f"{where}: traced {g} vs untraced {f}")
-                if want is not None and not isinstance(want, (dict, tuple)):
-                    wlog = f"{'.'.join(path[:-1])}.{path[-1]}@{d}={want}"
-                    if log != wlog:
-                        return ("trace-log", f"{where}: the tracer recorded [{log}], the read was {wlog}")
-                elif log != "" and isinstance(want, (dict, tuple)):
-                    return ("trace-log", f"{where}: the tracer recorded [{log}] for a read that returned no plain value")
-            elif not vague:
-                if not _same(body, want):
-                    sig = "tree-value" if k == "rt" else "view-stale"
-                    return (sig, f"{where}: system {s} at {iso(d)} path {'.'.join(path) or '<root>'} reads {body}; "
-                                 f"the current tree defines {show_val(want)} (last change: {last_change})")
+            r = check_read(k, where, s, d, path, ans, ref.value(s, path, d), vague, last_change)
+            if r:
+                return r
             continue
         # vector reads
         if k == "fx":
@@ -840,7 +902,7 @@ def oracle(case: Case, out: str):
             sig = "vector-subnode-raises" if steps and steps[0][0] == "f" else "view-stale" if stale else f"{kindname}-raises"
             return (sig, f"{where}: raised; element-wise the current tree gives {wtxt}")
         if body != wtxt:
-            return ("view-stale" if stale and k == "fx" else f"{kindname}-pointwise", f"{where}: got {body}; element-wise the current tree of system {s} at {iso(d)} "
+            return ("view-stale" if stale else f"{kindname}-pointwise", f"{where}: got {body}; element-wise the current tree of system {s} at {iso(d)} "
                                             f"gives {wtxt} (last change: {last_change})")
         if route == "g" and rows and not isinstance(rows[0], dict):
             wlog = f"{'.'.join(path)}@{d}={wtxt}"
@@ -1117,6 +1179,32 @@ def g_edits(rng, ref: Ref, b: int, ntrees: int, hot: list) -> str:
     return "+".join(edits)
 
 
+def g_nested(rng, ref: Ref, s: int, hot: list, keys: list) -> list:
+    """0-3 reads the user function makes while the modification of system s is under way: mostly of s's own
+    view, sometimes of its baseline's or another system's, at dates read before or about to be read again,
+    in every spelling of the instant; `keys` collects (system, form, date, path) for the follow-up reads"""
+    out = []
+    for _ in range(rng.choice([0, 0, 1, 1, 2, 3])):
+        r = rng.random()
+        sy = s if r < 0.65 else (ref.base[s] if ref.base[s] is not None and r < 0.85 else rng.randrange(len(ref.cur)))
+        d = rng.choice(hot) if hot and rng.random() < 0.6 else rng.choice(READ_DATES).toordinal()
+        hot.append(d)
+        t = ref.cur[sy]
+        path = [] if t is None or rng.random() < 0.35 else rng.choice(any_paths(t))
+        form = g_form(rng, d)
+        out.append(f"{'a' if rng.random() < 0.3 else 'v'},{sy},{form},{d},{fmt_path(path)}")
+        keys.append((sy, form, d, path))
+    return out
+
+
+def with_nested(rng, edits: str, nested: list) -> str:
+    """the reads placed before, between and after the edits of the copied tree"""
+    items = edits.split("+")
+    for n in nested:
+        items.insert(rng.randint(0, len(items)), n)
+    return "+".join(items)
+
+
 def gen_history(rng, n_ops=None) -> Case:
     ntrees = rng.choice([1, 2, 2, 3])
     trees = [g_tree(rng) for _ in range(ntrees)]
@@ -1135,6 +1223,34 @@ def gen_history(rng, n_ops=None) -> Case:
         o = g_vec(rng, ref, s, hot) if rng.random() < 0.35 else None
         emit(o or g_read(rng, ref, s, hot))
 
+    def follow_up(s, keys):
+        """read again what the user function read in the middle of the modification, with the same spelling"""
+        for (sy, form, d, path) in keys:
+            if rng.random() < 0.75:
+                r = rng.random()
+                if r < 0.6:
+                    emit(f"ra:{sy}:{form}:{d}:{fmt_path(path)}")
+                elif r < 0.85:
+                    emit(f"rv:{sy}:{form}:{d}:{fmt_path([] if rng.random() < 0.5 else path)}")
+                else:
+                    emit(f"rf:{sy}:{rng.randint(0, 1)}:{form if form in (0, 1, 2) else 2}:{d}:{fmt_path(path)}")
+
+    def modify(s):
+        keys: list = []
+        nested = g_nested(rng, ref, s, hot, keys)
+        emit(f"md:{s}:{with_nested(rng, g_edits(rng, ref, s, ntrees, hot), nested)}")
+        if nested:
+            tags.append("nested-read-in-modifier")
+        follow_up(s, keys)
+
+    def reload(s):
+        keys: list = []
+        nested = g_nested(rng, ref, s, hot, keys) if rng.random() < 0.3 else []
+        emit(f"ld:{s}:{rng.randrange(ntrees)}" + (":" + "+".join(nested) if nested else ""))
+        if nested:
+            tags.append("nested-read-in-hook")
+        follow_up(s, keys)
+
     if init is None:
         emit(g_read(rng, ref, 0, hot))
         emit(f"ld:0:{rng.randrange(ntrees)}")
@@ -1146,10 +1262,10 @@ def gen_history(rng, n_ops=None) -> Case:
         elif r < 0.60:
             some_read(s)                       # read, change, read the same instant again
             if ref.base[s] is not None and rng.random() < 0.6:
-                emit(f"md:{s}:{g_edits(rng, ref, s, ntrees, hot)}")
+                modify(s)
                 tags.append("read-modify-read")
             else:
-                emit(f"ld:{s}:{rng.randrange(ntrees)}")
+                reload(s)
                 tags.append("read-reload-read")
             some_read(s)
             if rng.random() < 0.5:
@@ -1172,15 +1288,15 @@ def gen_history(rng, n_ops=None) -> Case:
                     body.append(rng.choice("mrr"))
             for kind in body:
                 if kind == "m":
-                    emit(f"md:{new}:{g_edits(rng, ref, new, ntrees, hot)}")
+                    modify(new)
                 else:
                     some_read(rng.choice([new, new, b]))
             tags.append("apply:" + "".join(body))
         elif r < 0.90 and ref.base[s] is not None:
-            emit(f"md:{s}:{g_edits(rng, ref, s, ntrees, hot)}")
+            modify(s)
             tags.append("modify-outside-apply")
         else:
-            emit(f"ld:{s}:{rng.randrange(ntrees)}")
+            reload(s)
     line = f"pview h {'-' if init is None else init} {';'.join(ops)} {ntrees} " + " ".join(c06.fmt_tree(t) for t in trees)
     kinds = sorted({o.split(':')[0] for o in ops})
     return Case(line=line, payload={"style": rng.getrandbits(30)}, claimed=True,
@@ -1221,7 +1337,7 @@ MALFORMED = [
 
 
 def generate(rng: random.Random, tier: str):
-    n_hist, n_vec = (5000, 5000) if tier == "quick" else (60000, 60000)
+    n_hist, n_vec = (3500, 3500) if tier == "quick" else (80000, 80000)
     out = [gen_history(rng) for _ in range(n_hist)]
     out += [gen_vector_case(rng) for _ in range(n_vec)]
     out += [Case(line=l, payload={"style": 0}, claimed=False, tags=("malformed",)) for l in MALFORMED]
@@ -1230,9 +1346,10 @@ def generate(rng: random.Random, tier: str):
 
 def enumerate_thorough():
     """(a) every declaration order of an as-of group of 1-3 `after_` children (plain and nested), read at
-    every boundary date +-1 through the four routes; (b) every sequence of 1-5 operations over {read the
-    baseline, read the reform, modify the reform, reload the baseline, reload the reform} after the reform
-    was created and both were read once"""
+    every boundary date +-1 through the four routes; (b) every sequence of 1-4 operations over {read the
+    baseline, read the reform, modify the reform, modify it with reads nested in the modifier, reload the
+    baseline, reload the reform, reload it with a reading hook} after the reform was created and both were
+    read once"""
     import itertools
     out = []
     o = lambda s: dt.date.fromisoformat(s).toordinal()
@@ -1254,12 +1371,14 @@ def enumerate_thorough():
                 out.append(Case(line=f"pview h 0 {ops} 1 {tree}", payload={"style": len(out)}, tags=("enum", "enum:asof-order")))
     t0 = f"N 2 x P {d15}:600 g N 2 z1 P {d15}:1 z2 P {d15}:2"
     t1 = f"N 2 x P {d15}:42 g N 2 z1 P {d15}:3 z2 P {d15}:4"
-    alphabet = {"R0": f"ra:0:0:{q}:-", "R1": f"ra:1:0:{q}:-", "M1": None, "L0": "ld:0:1", "L1": "ld:1:0"}
-    for n in range(1, 6):
+    alphabet = {"R0": f"ra:0:0:{q}:-", "R1": f"ra:1:0:{q}:-", "M1": None, "N1": None, "L0": "ld:0:1", "L1": "ld:1:0",
+                "H1": f"ld:1:0:v,1,0,{q},-"}
+    for n in range(1, 5):
         for seq in itertools.product(alphabet, repeat=n):
             ops = ["nr:0:0", f"ra:0:0:{q}:-", f"ra:1:0:{q}:x"]
             for j, a in enumerate(seq):
-                ops.append(alphabet[a] or f"md:1:u,x,{q - 10 * j},-,{700 + j}+u,g.z1,{q},{q + j},{j}")
+                ops.append(alphabet[a] or (f"md:1:u,x,{q - 10 * j},-,{700 + j}+u,g.z1,{q},{q + j},{j}" if a == "M1" else
+                                          f"md:1:v,1,0,{q},-+u,x,{q - 10 * j},-,{800 + j}+v,0,0,{q},x"))
             out.append(Case(line=f"pview h 0 {';'.join(ops)} 2 {t0} {t1}", payload={"style": len(out)}, tags=("enum", "enum:interleaving")))
     return out
 
@@ -1283,6 +1402,13 @@ def corpus():
     # two modifiers in one apply(): the second works on the result of the first (repair C14e)
     out.append(Case(line=f"pview h 0 nr:0:4;md:1:u,benefits.basic_income,{d18},-,777;ra:1:0:{d18}:-;md:1:u,taxes.rate,{d18},-,1/2;"
                          f"ra:1:0:{d18}:-;ra:0:0:{d18}:- 1 {bi}", payload={"style": 4}, tags=("corpus",)))
+    # a modifier that reads the reform's own view while it runs (to raise the value in force), then every route
+    # again with the same spelling: the memo must be emptied AFTER the new tree is installed
+    for form in (0, 1, 2):
+        out.append(Case(line=f"pview h 0 nr:0:1;md:1:v,1,{form},{d18},benefits.basic_income+u,benefits.basic_income,{d15 + 365},-,660+a,0,{form},{d18},-;"
+                             f"ra:1:{form}:{d18}:benefits.basic_income;rv:1:{form}:{d18}:-;ra:0:{form}:{d18}:benefits.basic_income;"
+                             f"fx:1:v:{form}:{d18}:benefits:n:basic_income:-;ld:1:1:v,1,{form},{d18},-+a,0,0,{d18},-;ra:1:{form}:{d18}:- 2 {bi} {bi2}",
+                        payload={"style": 20 + form}, tags=("corpus", "nested-read")))
     # F-C07b: a sub-node by name after a vector index
     housing = (f"N 1 g N 2 z1 N 2 owner N 2 k1 P {d15}:1 k2 P {d15}:2 tenant N 2 k1 P {d15}:3 k2 P {d15}:4 "
                f"z2 N 2 tenant N 2 k2 P {d15}:8 k1 P {d15}:7 owner N 2 k1 P {d15}:5 k2 P {d15}:6")
@@ -1340,7 +1466,10 @@ PROP = Prop(
           "day/month/year Period, int year), through the parameter object (call or get_at_instant), through a formula's "
           "`parameters` argument of a fresh simulation, untraced and traced (with the tracer's parameter log); real Reform subclasses "
           "whose apply() bodies read before and after modify_parameters (update by period / start+stop / start only, 1-3 updates, "
-          "a modifier returning another tree, a modifier returning a non-node), modify_parameters called again later, reforms of "
+          "a modifier returning another tree, a modifier returning a non-node; 0-3 reads of the reform's, its baseline's or "
+          "another system's view or of all four routes made BY THE MODIFIER while it runs, before, between and after its edits of "
+          "the copied tree, in every spelling of the instant, each followed after the modification by the same read with the "
+          "same spelling; the same reads made by a preprocess_parameters hook inside load_parameters), modify_parameters called again later, reforms of "
           "reforms, load_parameters on baselines and reforms; reads come back to the same instants ('read, modify, read again'); "
           "vector reads node[keys] with 1-8 keys as names / Enum members / EnumArray / integers, followed by .name, ['name'] or a "
           "second key vector, and node[datetime64 vector] with dates at the after_ boundaries +-1, through all four routes. "
@@ -1354,6 +1483,10 @@ PROP = Prop(
         "object identity is erased: the documented routes (Reform.modify_parameters on a deep copy, load_parameters building a new tree) never "
         "mutate a tree in place; assigning `system.parameters = …` on a system whose view was already read, and in-place edits of a live tree, "
         "are not documented routes and are not generated; load_extension (third cache_clear site) is not exercised: it needs an importable package",
+        "user code can run in the middle of a modification in two places only: the modifier function of Reform.modify_parameters and the "
+        "preprocess_parameters hook of load_parameters (a plain caller cannot interleave a read with load_parameters); both are modelled as "
+        "programs that read the process while the former tree is in place (ModProg), and the memo is emptied after the new tree is installed; "
+        "modifiers that themselves modify or reload systems (nested modifications) are not modelled",
         "as-of-date groups: the model orders after_ names as strings like the code; C07_asof_pointwise assumes the names order like their "
         "dates, which holds for the zero-padded after_YYYY_MM_DD spelling generated here",
         "claim domain of vector reads: level-uniform (homogeneous) groups, 1-D key vectors, keys that name a child defined at the date; "
@@ -1362,12 +1495,14 @@ PROP = Prop(
     ],
     partial_theorems=[],
     exhaustive_note=("thorough: (a) all 2! + 3! + 4! declaration orders of an as-of group with 1-3 after_ children, plain and nested, "
-                     "read at every boundary date -1/0/+1 (and years 1000, 2030) through the four routes; (b) all 3905 sequences of "
-                     "1-5 operations over {read baseline, read reform, modify reform, reload baseline, reload reform} after both "
-                     "systems were read once"),
+                     "read at every boundary date -1/0/+1 (and years 1000, 2030) through the four routes; (b) all 2800 sequences of "
+                     "1-4 operations over {read baseline, read reform, modify reform, modify reform with reads nested in the modifier, "
+                     "reload baseline, reload reform, reload reform with a reading preprocess_parameters hook} after both systems were read once"),
     level_text=("T-full on the model: for every finite history of reads, reform creations, modifiers and reloads the memoised view is the "
                 "snapshot of the current tree; view / parameter object / formula / traced formula agree; the tracing wrapper only appends "
                 "to its log; vector indexing is element-wise the child's value with its exact error condition; as-of-date indexing returns "
-                "the child in force whatever the declaration order; a reform's modification leaves every other system's reads unchanged. "
+                "the child in force whatever the declaration order; a reform's modification leaves every other system's reads unchanged; "
+                "modify_parameters / load_parameters as ordered sub-steps (copy, user function with arbitrary nested reads, install, clear): "
+                "whatever was read meanwhile, every route reads the new tree afterwards. "
                 "K: real TaxBenefitSystem / Reform / Simulation objects against the model; numpy recarray mechanics modelled."),
 )
